@@ -80,7 +80,9 @@ package blob
 // again only if, at the start of that attempt, neither source was cancelled (a cancellation that
 // happened before an attempt started ends the stream after that attempt at the latest). The retrieval
 // is made for the header that was just received, and the stream goes on to the next header (having sent
-// a response for this one) only after a retrieval for it succeeded.
+// a response for this one) only after a retrieval for it succeeded. The stream ends - the goroutine
+// returns, closing the channel - only when the subscriber's or the service's context is done, the header
+// feed was closed, or the response buffer was observed full (len == cap): never for a smaller backlog.
 // (getAll fans out over namespaces in goroutines; it does not write the service)
 //@ func (*Service).getAll
 //@   property C20
@@ -90,6 +92,7 @@ package blob
 //@   property C20
 //@   noframe
 //@   callpre Service).getAll: $arg2 == header
+//@   checks ctxDone(ctx) || ctxDone(s.ctx) || ($Sel0 && !ok) || len(blobCh) == cap(blobCh)
 //@   loop 1: backedge err == nil
 //@   loop 2: backedge !head(ctxDone(ctx))
 //@   loop 2: backedge !head(ctxDone(s.ctx))
